@@ -15,8 +15,7 @@
 (*            waiting to be announced; locked = the environment refuses    *)
 (*            to write new data into it                                    *)
 (* The formal content (what the core hash covers) is <<n, u, e>>.          *)
-(* Grid cells are not modelled (one per pictogram by construction); the    *)
-(* harness checks them on the implementation.                              *)
+(*   cell[p]  <<row, column>> of the pictogram on the layout grid          *)
 (***************************************************************************)
 EXTENDS Integers, Sequences, FiniteSets, TLC
 
@@ -26,7 +25,19 @@ EmptyHandle == [name |-> 0, hash |-> NoHash, linked |-> FALSE]
 \* tkey: the sources whose first base sets the table names (identifiers of other sources' constituents mean nothing)
 NewOper == [type |-> "tba", table |-> -1, tkey |-> <<0, 0>>, broken |-> FALSE, outdated |-> FALSE]
 Pairs(t) == IF t = 1 THEN 1 ELSE 0
-EmptyOSS == [par |-> <<>>, hand |-> <<>>, oper |-> <<>>, store |-> <<>>, dnd |-> FALSE]
+EmptyOSS == [par |-> <<>>, hand |-> <<>>, oper |-> <<>>, store |-> <<>>, dnd |-> FALSE, cell |-> <<>>]
+
+\* ---- layout grid (ossGridFacet)
+Occupied(S, pos) == \E q \in DOMAIN S.cell : S.cell[q] = pos
+\* ClosestFreePos: the first free column at or to the right of the start (the search never moves left)
+FreeFrom(S, row, col) == <<row, CHOOSE c \in col..(col + Cardinality(DOMAIN S.cell) + 1) : ~Occupied(S, <<row, c>>) /\ \A d \in col..(c - 1) : Occupied(S, <<row, d>>)>>
+MaxOf2(a, b) == IF a >= b THEN a ELSE b
+\* ChildPosFor: one row below the lower parent, centred between the parents' effective columns (column + row/2), rounded half up, not left of 0
+ChildPos(S, a, b) ==
+  LET r1 == S.cell[a][1]  c1 == S.cell[a][2]  r2 == S.cell[b][1]  c2 == S.cell[b][2]
+      row == MaxOf2(r1, r2) + 1
+      x2 == 2 * (c1 + c2) + (r1 + r2) - 2 * row          \* twice (eff1 + eff2 - row)
+  IN FreeFrom(S, row, IF x2 < 0 THEN 0 ELSE (x2 + 2) \div 4)
 
 Picts(S) == DOMAIN S.par
 IsOp(S, p) == p \in DOMAIN S.oper
@@ -77,17 +88,27 @@ StatusOf(S, p) ==
   ELSE "defined"
 
 \* ---------------------------------------------------------------- editing the schema of pictograms
-InsertBase(S, new) == [S EXCEPT !.par = (new :> <<>>) @@ S.par, !.hand = (new :> EmptyHandle) @@ S.hand]
+InsertBase(S, new) == [S EXCEPT !.par = (new :> <<>>) @@ S.par, !.hand = (new :> EmptyHandle) @@ S.hand, !.cell = (new :> FreeFrom(S, 0, 0)) @@ S.cell]
 CanInsertOperation(S, a, b) == a # b /\ a \in Picts(S) /\ b \in Picts(S)
 InsertOperation(S, new, a, b) ==
   IF ~CanInsertOperation(S, a, b) THEN S
-  ELSE [S EXCEPT !.par = (new :> <<a, b>>) @@ S.par, !.hand = (new :> EmptyHandle) @@ S.hand, !.oper = (new :> NewOper) @@ S.oper]
+  ELSE [S EXCEPT !.par = (new :> <<a, b>>) @@ S.par, !.hand = (new :> EmptyHandle) @@ S.hand, !.oper = (new :> NewOper) @@ S.oper,
+                 !.cell = (new :> ChildPos(S, a, b)) @@ S.cell]
 CanErase(S, p) == p \in Picts(S) /\ ChildrenOf(S, p) = {}
 Erase(S, p) ==
   IF ~CanErase(S, p) THEN S
   ELSE LET S0 == Sync(S, p) IN       \* Discard saves the state of the attached source first
        [S0 EXCEPT !.par = [x \in DOMAIN S0.par \ {p} |-> S0.par[x]], !.hand = [x \in DOMAIN S0.hand \ {p} |-> S0.hand[x]],
-                  !.oper = [x \in DOMAIN S0.oper \ {p} |-> S0.oper[x]]]
+                  !.oper = [x \in DOMAIN S0.oper \ {p} |-> S0.oper[x]], !.cell = [x \in DOMAIN S0.cell \ {p} |-> S0.cell[x]]]
+\* the user moves a pictogram along its row; an occupied target cell swaps its occupant into the freed cell
+ShiftPict(S, p, k) ==
+  IF p \notin Picts(S) \/ k = 0 \/ S.cell[p][2] + k < 0 THEN S
+  ELSE LET old == S.cell[p]  new == <<old[1], old[2] + k>> IN
+       IF ~Occupied(S, new) THEN [S EXCEPT !.cell[p] = new]
+       ELSE LET q == CHOOSE x \in DOMAIN S.cell : S.cell[x] = new IN [S EXCEPT !.cell[p] = new, !.cell[q] = old]
+\* a loader puts a pictogram on a cell that is free (or its own)
+CanLoadPosition(S, p, pos) == p \in Picts(S) /\ (~Occupied(S, pos) \/ S.cell[p] = pos)
+LoadPosition(S, p, pos) == IF CanLoadPosition(S, p, pos) THEN [S EXCEPT !.cell[p] = pos] ELSE S
 
 \* ---------------------------------------------------------------- sources (the environment)
 \* a new source with n0 base sets is created by the environment and the pictogram is connected to it (ConnectPict2Src)
@@ -180,6 +201,7 @@ Ancestors(S, p, fuel) == IF fuel = 0 \/ S.par[p] = <<>> THEN {}
                          ELSE {S.par[p][1], S.par[p][2]} \cup Ancestors(S, S.par[p][1], fuel - 1) \cup Ancestors(S, S.par[p][2], fuel - 1)
 Structure(S) ==
   /\ DOMAIN S.hand = Picts(S)                                                   \* one source handle each
+  /\ DOMAIN S.cell = Picts(S) /\ \A p, q \in Picts(S) : p # q => S.cell[p] # S.cell[q]   \* one grid cell each, no cell twice
   /\ DOMAIN S.oper = {p \in Picts(S) : S.par[p] # <<>>}                         \* operation handle iff it has parents
   /\ \A p \in DOMAIN S.oper : /\ Len(S.par[p]) = 2 /\ S.par[p][1] # S.par[p][2]
                               /\ S.par[p][1] \in Picts(S) /\ S.par[p][2] \in Picts(S)
@@ -209,6 +231,8 @@ Apply(S, c) ==
     [] c.op = "Save" -> Save(S, c.p)
     [] c.op = "Lock" -> Lock(S, c.p)
     [] c.op = "Reload" -> Reload(S)
+    [] c.op = "ShiftPict" -> ShiftPict(S, c.p, c.n)
+    [] c.op = "LoadPosition" -> LoadPosition(S, c.p, <<c.a, c.b>>)
     [] c.op = "InitFor" -> InitFor(S, c.p, c.type, c.table)
     [] c.op = "Execute" -> Execute(S, c.p, NewSrcOf, FALSE).S
     [] c.op = "ExecuteAll" -> ExecAll(S, SortedSeq(DOMAIN S.oper), 1, NewSrcOf)
@@ -222,7 +246,7 @@ SaveAll(S) == LET ps == SortedSeq(Picts(S))
 View(S) ==
   LET ps == SortedSeq(Picts(S)) IN
   [i \in DOMAIN ps |-> LET p == ps[i] IN
-     [pid |-> p, parents |-> S.par[p], isOp |-> IsOp(S, p), hasData |-> HasData(S, p),
+     [pid |-> p, parents |-> S.par[p], row |-> S.cell[p][1], col |-> S.cell[p][2], isOp |-> IsOp(S, p), hasData |-> HasData(S, p),
       status |-> StatusOf(S, p),
       broken |-> IF IsOp(S, p) THEN S.oper[p].broken ELSE FALSE, outdated |-> IF IsOp(S, p) THEN S.oper[p].outdated ELSE FALSE,
       type |-> IF IsOp(S, p) THEN S.oper[p].type ELSE "",
